@@ -48,6 +48,51 @@ def routes_agree(name, f, spec, canon, first_positional_only=0):
   return R(None, True, (name, len(spec)))
 
 
+STRUCTURAL = ("size", "hop", "order", "lag", "delay", "max_lag", "n", "cycles", "eta", "left", "right")
+
+
+def struct_params(spec):
+  out = []
+  for n, mk in spec:
+    if n in STRUCTURAL:
+      v = mk()
+      if isinstance(v, int) and not isinstance(v, bool):
+        out.append(n)
+  return out
+
+
+def types_agree(name, f, spec, canon, int_params):
+  """Structural integer parameters (sizes, hops, orders, lags, delays) given as an integral float, a
+  Fraction or - for the value 1 - a bool: where the function accepts the type at all (no TypeError /
+  ValueError / AttributeError), the result is the one of the plain int."""
+  from fractions import Fraction
+  def call(override):
+    kw = {n: mk() for n, mk in spec}
+    kw.update(override)
+    return canon(f(**kw))
+  try:
+    ref = call({})
+  except Exception as exc:
+    return bad("types:exception", "%s raised with its documented parameters" % name, None, str(exc)[:200], True)
+  tried = accepted = 0
+  for pname in int_params:
+    v = dict(spec)[pname]()
+    alts = [("float", float(v)), ("Fraction", Fraction(v))]
+    if v in (0, 1):
+      alts.append(("bool", bool(v)))
+    for tname, alt in alts:
+      tried += 1
+      try:
+        got = call({pname: alt})
+      except Exception:
+        continue          # this type is not accepted for this parameter: nothing is promised
+      accepted += 1
+      if got != ref:
+        return bad("types:differ", "%s gives another result when %s is the %s %r instead of the int %r"
+                   % (name, pname, tname, alt, v), _short(ref), _short(got), True)
+  return R(None, accepted > 0, (name, accepted, tried))
+
+
 def _short(v):
   s = repr(v)
   return s if len(s) < 400 else s[:400] + "..."
